@@ -4,6 +4,7 @@ import (
 	"bytes"
 	"encoding/binary"
 	"encoding/gob"
+	"errors"
 	"fmt"
 	"sync"
 
@@ -87,6 +88,20 @@ func (idx *BigIndexWriter) AddRow(values map[string]string) (uint32, error) {
 	}
 
 	return rowID, nil
+}
+
+// Close releases the temporary transaction the writer keeps open. It must be called
+// when the writer is abandoned without Flush (otherwise closing the temporary database
+// blocks forever); calling it after Flush is harmless.
+func (idx *BigIndexWriter) Close() error {
+	idx.mtx.Lock()
+	defer idx.mtx.Unlock()
+
+	if err := idx.tempTx.Rollback(); err != nil && !errors.Is(err, bbolt.ErrTxClosed) {
+		return err
+	}
+
+	return nil
 }
 
 func (idx *BigIndexWriter) Flush() error {
